@@ -33,9 +33,23 @@ func h5Main(env *Env, c *H5Cfg, sh *h5Shared) {
 	}
 	sh.iterDurNs = int64(rates.IterationDuration)
 	sh.ratesDurNs = int64(rates.Duration)
+	var twin *api.Rates
+	if c.Jitter > 0 && c.Kind != "jitter" && c.Kind != "dist" {
+		// the same profile without jitter, evaluated at the same instants: the reference for C13
+		plain := *c
+		plain.Jitter = 0
+		twin, err = h5Build(env, &plain, sh)
+		if err != nil {
+			sh.buildErr = err.Error()
+			return
+		}
+	}
 	wrapped := func(t time.Time) int {
 		v := rates.Rate(t)
 		sh.logOuter(env, t, v)
+		if twin != nil {
+			sh.logInner(env, t, twin.Rate(t))
+		}
 		return v
 	}
 	if c.PureTicks > 0 {
